@@ -138,6 +138,12 @@ def run(rep):
             vals = [num * angstrom ** 2 / (2 * d * ((pe - ps) * traj.time_step)) / md.N ** 2 / A for num, (ps, pe) in zip(e['parts'], pr)]
             if not md.close(u.n, float(np.mean(vals)), rel=1e-9, abs_=1e-30) or not md.close(u.s, float(np.std(vals)), rel=1e-7, abs_=1e-30):
                 bad.append(('metrics-std-tracer-diffusivity', u.n, u.s, float(np.mean(vals)), float(np.std(vals))))
+            # vibration amplitude: mean / std over the parts of the per-part values of the same code path
+            uv = std.vibration_amplitude()
+            vv = [float(TrajectoryMetrics(pt).vibration_amplitude()) for pt in plist]
+            if all(math.isfinite(x) for x in vv) and (not md.close(uv.n, float(np.mean(vv)), rel=1e-9, abs_=1e-12)
+                                                      or not md.close(uv.s, float(np.std(vv)), rel=1e-7, abs_=1e-12)):
+                bad.append(('metrics-std-vibration-amplitude', uv.n, uv.s, float(np.mean(vv)), float(np.std(vv))))
             uc = std.tracer_conductivity(z_ion=z, dimensions=d)
             cvals = [v * elementary_charge ** 2 * z ** 2 * pd_exact / (Boltzmann * temp) for v in vals]
             if not md.close(uc.n, float(np.mean(cvals)), rel=1e-9, abs_=1e-30) or not md.close(uc.s, float(np.std(cvals)), rel=1e-7, abs_=1e-30):
